@@ -138,6 +138,57 @@ func c25Gen(r *core.Rand, tier string) any {
 		}
 		return sc
 	}
+	if !sc.NoFault && r.Bool(0.35) {
+		// directed stratum: leadership moves (once or twice) while the endpoint is
+		// down and undelivered changes sit in the FIFOs.
+		add := func(op c25Op) { op.Gap = r.Intn(10); sc.Ops = append(sc.Ops, op) }
+		reqs := func(lo, hi int) {
+			for i := r.Range(lo, hi); i > 0; i-- {
+				st, tx := g.request()
+				add(c25Op{K: "req", Client: r.Intn(2), Node: r.Intn(4), Tx: tx, Stmts: st})
+				if r.Bool(0.4) {
+					add(c25Op{K: "run", Ms: r.Range(100, 2500)})
+				}
+			}
+		}
+		change := func() {
+			switch r.Intn(4) {
+			case 0:
+				add(c25Op{K: "stepdown"})
+			case 1:
+				add(c25Op{K: "isolate", Node: 0})
+				add(c25Op{K: "run", Ms: r.Range(1500, 4000)})
+				reqs(0, 2)
+				add(c25Op{K: "heal"})
+			case 2:
+				add(c25Op{K: "crash", Node: 0})
+				add(c25Op{K: "run", Ms: r.Range(1500, 4000)})
+				reqs(0, 2)
+				add(c25Op{K: "restart"})
+			default:
+				add(c25Op{K: "crash", Node: r.Range(1, 3)})
+				add(c25Op{K: "run", Ms: r.Range(200, 2000)})
+				add(c25Op{K: "restart"})
+			}
+			add(c25Op{K: "run", Ms: r.Range(500, 3000)})
+		}
+		reqs(1, 4)
+		add(c25Op{K: "run", Ms: r.Range(200, 2500)})
+		add(c25Op{K: "outage", Mode: []string{"reject", "reject", "acklost"}[r.Intn(3)]})
+		reqs(1, 5)
+		change()
+		reqs(0, 3)
+		if r.Bool(0.5) {
+			change()
+			reqs(0, 2)
+		}
+		if r.Bool(0.3) {
+			add(c25Op{K: "snapshot", Node: r.Intn(4)})
+		}
+		add(c25Op{K: "restore"})
+		reqs(0, 3)
+		return sc
+	}
 	nops := r.Range(15, 45)
 	nreq, nout, nlead, ncrash := 0, 0, 0, 0
 	down, parted, out := false, false, false
